@@ -17,9 +17,11 @@ from dvc_data.index.diff import diff
 from vf.env import make_env
 from vf.hlib import B, HarnessGap, NoTracing, cube, journal, pick, violation
 
-FILES = {"f": b"F", "d/a": b"A", "d/s/b": b"", "d/s/c": b"A"}
+FILES = {"f": b"F", "d/a": b"A", "d/s/b": b"", "d/u/v/w": b"A"}  # d/u holds no file of its own: an intermediate implicit directory
 LAZY = cube("lazy", "d")
-KEYS = [(), ("f",), ("d",), ("d", "a"), ("d", "s"), ("d", "s", "b"), ("d", "x")]
+KEYS = [(), ("d",), ("d", "a"), ("d", "s"), ("d", "s", "b"), ("d", "u"), ("d", "u", "v"), ("d", "x")]
+NK = len(KEYS) - 1
+OPS2 = cube("ops2", [0, 1, 2, 3, 4, 5, 6])  # operation kinds allowed after the first one
 NOPS = int(cube("nops", 2))
 
 
@@ -116,7 +118,7 @@ def _shape(p1, p2, p3):
 
 def h_access(o2: int, o3: int, k1: int, k2: int, k3: int, p1: bool, p2: bool, p3: bool) -> bool:
     """
-    pre: 0 <= o2 <= 6 and 0 <= o3 <= 6 and 0 <= k1 <= 6 and 0 <= k2 <= 6 and 0 <= k3 <= 6
+    pre: 0 <= o2 <= 6 and 0 <= o3 <= 6 and 0 <= k1 <= 7 and 0 <= k2 <= 7 and 0 <= k3 <= 7
     post: _
     """
     files = _shape(p1, p2, p3)
@@ -128,8 +130,8 @@ def h_access(o2: int, o3: int, k1: int, k2: int, k3: int, p1: bool, p2: bool, p3
             lazy, full, cache = _build(env, files)
             afs_lazy = DataFileSystem(index=lazy, skip_instance_cache=True)
             afs_full = DataFileSystem(index=full, skip_instance_cache=True)
-        ops = [int(cube("op1", 0))] + [pick(o, 0, 6) for o in (o2, o3)[: NOPS - 1]]
-        keys = [KEYS[pick(k, 0, 6)] for k in (k1, k2, k3)[:NOPS]]
+        ops = [int(cube("op1", 0))] + [OPS2[pick(o, 0, len(OPS2) - 1)] for o in (o2, o3)[: NOPS - 1]]
+        keys = [KEYS[pick(k, 0, NK)] for k in (k1, k2, k3)[:NOPS]]
         trace = []
         for op, key in zip(ops, keys):
             a = _observe(lazy, afs_lazy, op, key)
@@ -173,7 +175,7 @@ def _on_path(prefix, key):
 
 def h_view(pi: int, q: int, p1: bool, p2: bool, p3: bool) -> bool:
     """
-    pre: 0 <= pi <= 6 and 0 <= q <= 6
+    pre: 0 <= pi <= 7 and 0 <= q <= 7
     post: _
     """
     files = _shape(p1, p2, p3)
@@ -183,11 +185,11 @@ def h_view(pi: int, q: int, p1: bool, p2: bool, p3: bool) -> bool:
     try:
         with NoTracing():
             lazy, full, cache = _build(env, files)
-        prefix = KEYS[pick(pi, 0, 6)]
+        prefix = KEYS[pick(pi, 0, NK)]
         v = view(lazy, lambda key: _on_path(prefix, key))
         try:
             got = sorted((k, _proj(e)) for k, e in v.iteritems())
-            qk = KEYS[pick(q, 0, 6)]
+            qk = KEYS[pick(q, 0, NK)]
             try:
                 item = ("ok", _proj(v[qk]))
             except KeyError:
@@ -221,7 +223,7 @@ def h_view(pi: int, q: int, p1: bool, p2: bool, p3: bool) -> bool:
             ref_ls = "KeyError"
         if lsq != ref_ls:
             violation("view-listing-differs", (prefix, qk, lsq, ref_ls))
-        journal({"prefix": "/".join(prefix), "q": "/".join(KEYS[pick(q, 0, 6)])}, nontrivial=True)
+        journal({"prefix": "/".join(prefix), "q": "/".join(qk)}, nontrivial=True)
         return True
     finally:
         env.close()
